@@ -31,6 +31,9 @@ pub enum Pick {
     OutOfRange(u32),
     /// explicit id
     Tok(u32),
+    /// (validate only) next token of a random split of the pending forced bytes into vocabulary
+    /// tokens - a valid draft that a canonical tokenizer would not produce
+    ForcedSplit(u64),
 }
 
 impl Pick {
@@ -157,6 +160,11 @@ pub enum Op {
         /// per step: number of u32 words in the destination buffer
         words: Vec<usize>,
         is_async: bool,
+        /// per step (parallel to hs; missing = 0): 1 = a step with a NULL constraint pointer
+        /// precedes this one in the batch, 2 = mask_byte_len is not a multiple of 4, 3 = NULL
+        /// destination (2, 3: that constraint must report an error, nobody else is affected)
+        #[serde(default, skip_serializing_if = "Vec::is_empty")]
+        quirks: Vec<u8>,
     },
     CMaskInto {
         h: SlotId,
